@@ -216,7 +216,7 @@ func (o *nameAddrObj) Call(buf []byte, offs int) (int, sipsp.ErrorHdr) {
 		} else {
 			n, err = sipsp.ParseNameAddrPVal(o.kind, buf, offs, &o.cur)
 		}
-		if err == sipsp.ErrHdrMoreValues && len(o.done) < 64 && n > offs {
+		if err == sipsp.ErrHdrMoreValues && len(o.done) < 64 {
 			// definitive for this value: keep it, continue with a fresh one
 			o.done = append(o.done, o.cur)
 			o.cur.Reset()
@@ -311,7 +311,7 @@ type tokObj struct {
 func (o *tokObj) Call(buf []byte, offs int) (int, sipsp.ErrorHdr) {
 	for {
 		n, err := sipsp.ParseTokenParam(buf, offs, &o.cur, o.flags)
-		if err == sipsp.ErrHdrMoreValues && len(o.done) < 64 && n > offs {
+		if err == sipsp.ErrHdrMoreValues && len(o.done) < 64 {
 			o.done = append(o.done, o.cur)
 			o.cur.Reset()
 			offs = n
